@@ -205,7 +205,7 @@ def expected_leaf(alg_t, p):
 class DirHashsums(FnSpec):
     file = "util/hashsums.py"
     qual = "dir_hashsums"
-    props = ("C19",)
+    props = ("C19", "C18")
 
     def empty_container(self, cx, name, ann):
         if name == "ret":
@@ -351,7 +351,7 @@ class OsMod(SVal):
 class RelSymlink(FnSpec):
     file = "util/hashsums.py"
     qual = "rel_symlink"
-    props = ("C19",)
+    props = ("C19", "C18")
 
     def init(self):
         self.bindings["os"] = OsMod()
